@@ -478,15 +478,30 @@ func ZZC03_copy_options() {
 }
 
 // zzSharedWorld: an index of two platform images that share their only layer.
+var zzSharedBlobEntry bool // the index lists the shared layer itself as a blob-typed entry beside one image
+
 func zzSharedWorld() *zzWorld {
 	zzos.Reset()
 	w := &zzWorld{bytes: map[digest.Digest][]byte{}, mans: map[digest.Digest]bool{}, plain: map[digest.Digest]bool{}}
 	w.pool = append(w.pool, w.put([]byte("l0"), "application/vnd.oci.image.layer.v1.tar+gzip", false))
 	zzSmall = true
 	var entries []string
-	for i := 0; i < 2; i++ {
+	nImg := 2
+	if zzSharedBlobEntry {
+		nImg = 1
+	}
+	for i := 0; i < nImg; i++ {
 		d := w.image(i)
 		entries = append(entries, `{"mediaType":"application/vnd.oci.image.manifest.v1+json","digest":"`+d.Digest.String()+`","size":`+strconv.Itoa(int(d.Size))+`}`)
+	}
+	if zzSharedBlobEntry {
+		// (the layout buildkit writes for a registry cache: the index names layers directly)
+		e := `{"mediaType":"application/vnd.oci.image.layer.v1.tar+gzip","digest":"` + w.pool[0].Digest.String() + `","size":2}`
+		if zzBool("blob_entry_first") {
+			entries = append([]string{e}, entries...)
+		} else {
+			entries = append(entries, e)
+		}
 	}
 	b := []byte(`{"schemaVersion":2,"mediaType":"application/vnd.oci.image.index.v1+json","manifests":[` + strings.Join(entries, ",") + `]}`)
 	w.top = w.put(b, "application/vnd.oci.image.index.v1+json", true)
@@ -512,7 +527,17 @@ func zzSigOf(ev *zzreg.Event) int {
 // registry repository; at every request another runnable copy goroutine may be
 // served first (budget of 1-2 such switches). Ordering, completeness and
 // transfer accounting must hold on every such schedule.
-func ZZC03_copy_schedules() {
+func ZZC03_copy_schedules() { zzCopySchedules() }
+
+// The same for an index that lists a layer directly as a blob-typed entry next
+// to an image using that layer (the shape of a buildkit registry cache).
+func ZZC03_copy_schedules_blob_entry() {
+	zzSharedBlobEntry = true
+	zzCopySchedules()
+	zzSharedBlobEntry = false
+}
+
+func zzCopySchedules() {
 	w := zzSharedWorld()
 	ra, rb := zzreg.New(zzHostA), zzreg.New(zzHostB)
 	ra.ValidateRefs, rb.ValidateRefs = false, false
